@@ -924,9 +924,32 @@ def run_ce_wide(case):
     shifted = r64 - r64.max()
     with np.errstate(divide='ignore'):
       want_tok.append(float(np.log(np.sum(np.exp(shifted))) - shifted[t]))
+  def per_domain_rows(base_metric, ex_, pred_, base_stat):
+    """The same example through PerDomainMetric: its own domain's row is the
+    base statistic (also when that is +inf), every other row is exactly 0."""
+    d = case.get('D')
+    if not d:
+      return
+    dom = case['domain'] % d
+    pst = M.PerDomainMetric(base_metric, d).evaluate_example(
+        dict(ex_, domain_id=jnp.asarray(dom, jnp.int32)), pred_)
+    for f in ('accum', 'weight'):
+      arr = np.asarray(getattr(pst, f), np.float64)
+      b = np.asarray(getattr(base_stat, f), np.float64)
+      require(arr.shape == (d,) + b.shape, 'ce_wide:per_domain:shape', f'{f}: {arr.shape}')
+      for j in range(d):
+        if j == dom:
+          require(np.array_equal(arr[j], b), 'ce_wide:per_domain:own_domain_row_is_base_statistic',
+                  f'{f}[{j}]={arr[j].tolist()} base {b.tolist()}; rows {case["rows"]}')
+        else:
+          require(not np.any(arr[j]), 'ce_wide:per_domain:other_domain_rows_are_zero',
+                  f'{f}[{j}]={arr[j].tolist()} (example in domain {dom}, base {f} '
+                  f'{b.tolist()}); rows {case["rows"]} targets {targets}')
+
   if len(rows) == 1 and case['metric'] == 'CrossEntropyLoss':
-    st_ = M.CrossEntropyLoss().evaluate_example(
-        {'y': jnp.asarray(targets[0], jnp.int32)}, jnp.asarray(rows[0], jnp.float32))
+    ex1 = {'y': jnp.asarray(targets[0], jnp.int32)}
+    st_ = M.CrossEntropyLoss().evaluate_example(ex1, jnp.asarray(rows[0], jnp.float32))
+    per_domain_rows(M.CrossEntropyLoss(), ex1, jnp.asarray(rows[0], jnp.float32), st_)
     got = float(st_.accum)
     require(_same_loss(got, want_tok[0]),
             'ce_wide:CrossEntropyLoss:accum', f'rows {case["rows"]} target {targets}: {got} vs {want_tok[0]}')
@@ -937,11 +960,14 @@ def run_ce_wide(case):
   w = np.array([0.0 if t in masked else 1.0 for t in targets])
   want_sum = float(sum(x for x, wi in zip(want_tok, w) if wi))
   if case['metric'] == 'SequenceTokenCrossEntropyLoss':
-    st_ = M.SequenceTokenCrossEntropyLoss(masked_target_values=masked).evaluate_example(ex, pred)
+    base_metric = M.SequenceTokenCrossEntropyLoss(masked_target_values=masked)
+    st_ = base_metric.evaluate_example(ex, pred)
     want_acc, want_w = want_sum, float(w.sum())
   else:
-    st_ = M.SequenceCrossEntropyLoss(masked_target_values=masked).evaluate_example(ex, pred)
+    base_metric = M.SequenceCrossEntropyLoss(masked_target_values=masked)
+    st_ = base_metric.evaluate_example(ex, pred)
     want_acc, want_w = want_sum, float(w.sum() > 0)
+  per_domain_rows(base_metric, ex, pred, st_)
   got_acc, got_w = float(st_.accum), float(st_.weight)
   if want_w == 0:
     want_acc = 0.0
@@ -977,11 +1003,18 @@ def ce_wide_strategy(draw, tier):
     vals = [_wide_val(v) for v in row]
     if t in masked and (vals[t] == -np.inf or max(vals) - vals[t] > 3.0e38):
       masked = [m for m in masked if m != t]
-  return {'metric': metric, 'rows': rows, 'targets': targets, 'masked': masked}
+  case = {'metric': metric, 'rows': rows, 'targets': targets, 'masked': masked}
+  if draw(st.booleans()):
+    # the same example also through PerDomainMetric(base, D)
+    case['D'] = draw(st.sampled_from([2, 3]))
+    case['domain'] = draw(st.integers(0, 2))
+  return case
 
 
 def ce_wide_labels(case):
   ls = ['metric:' + case['metric']]
+  if case.get('D'):
+    ls.append('per_domain')
   for row in case['rows']:
     vals = [_wide_val(v) for v in row]
     fin = [v for v in vals if np.isfinite(v)]
